@@ -17,12 +17,25 @@ def insertStr (x : String) : List String → List String
 
 def sortStr (l : List String) : List String := l.foldr insertStr []
 
-/-- `add_view_deriver`: defaults for `under`/`over`, `as_sorted_tuple`, and "everything is over mapped_view" -/
+/-- `add_view_deriver`: defaults for `under`/`over`, `as_sorted_tuple`, and "everything is over mapped_view".
+A hint is `none` (not given) or the list of names given (a single string = the one-element list). -/
 def normDeriver (d : RawDeriver) : String × List String × List String :=
-  let under := sortStr [d.under.getD deriverDefaultUnder]
-  let over := sortStr [d.over.getD deriverDefaultOver]
+  let under := sortStr (d.under.getD [deriverDefaultUnder])
+  let over := sortStr (d.over.getD [deriverDefaultOver])
   let over := if over.contains "VIEW" && d.name != "mapped_view" then sortStr (over ++ ["mapped_view"]) else over
   (d.name, under, over)
+
+/-- the `ConfigurationError`s of `add_view_deriver`: reserved name, over INGRESS, under VIEW, under mapped_view -/
+def rejectsDeriver (d : RawDeriver) : Bool :=
+  let under := d.under.getD [deriverDefaultUnder]
+  let over := d.over.getD [deriverDefaultOver]
+  d.name == "INGRESS" || d.name == "VIEW" || over.contains "INGRESS" || under.contains "VIEW" ||
+    under.contains "mapped_view"
+
+/-- what reaches the sorter: `derivers.add(name, deriver, before=over, after=under)` as `(after, before)` -/
+def deriverAddArgs (d : RawDeriver) : List String × List String :=
+  let n := normDeriver d
+  if deriverAddMapping = "before=over,after=under" then (n.2.1, n.2.2) else (n.2.2, n.2.1)
 
 def nameId (first last : String) (known : List String) (s : String) : Nat :=
   if s = first then 0 else if s = last then 1 else 20 + known.idxOf s
@@ -35,12 +48,9 @@ def mkSorter (c : SorterCtor) (known : List String) : Sorter :=
 
 /-- `derivers.add(name, deriver, before=over, after=under)` -/
 def deriverOp (known : List String) (d : RawDeriver) : AddOp :=
-  let n := normDeriver d
+  let a := deriverAddArgs d
   let id := nameId deriverSorter.first deriverSorter.last known
-  if deriverAddMapping = "before=over,after=under" then
-    { name := id n.1, after := some (n.2.1.map id), before := some (n.2.2.map id) }
-  else
-    { name := id n.1, after := some (n.2.2.map id), before := some (n.2.1.map id) }
+  { name := id d.name, after := some (a.1.map id), before := some (a.2.map id) }
 
 def defaultDeriverNames : List String := defaultDerivers.map (·.name)
 
@@ -58,5 +68,20 @@ def deriverNamesOf (r : SortResult) : Option (List String) :=
 so the FIRST element of `outer ++ sorted` ends up outermost. -/
 def wrappingOrder (sorted : List String) : List String :=
   if applyReversed then outerDerivers ++ sorted else (outerDerivers ++ sorted).reverse
+
+/-- the real default sorter as the probe saw it, per name: `(name, name2after.get, name2before.get)` in ids -/
+def probedSorterTables : List (Nat × Option (List Nat) × Option (List Nat)) :=
+  let id := nameId deriverSorter.first deriverSorter.last defaultDeriverNames
+  defaultSorterState.map fun e => (id e.name, e.after.map (·.map id), e.before.map (·.map id))
+
+def probedSorterOrder : List (Nat × Nat) :=
+  let id := nameId deriverSorter.first deriverSorter.last defaultDeriverNames
+  defaultSorterOrder.map fun e => (id e.1, id e.2)
+
+/-- the trace encoding of the tween probes (same as the driver's): `n`, `-(n+1)`, `1000000` -/
+def evCode : Ev → Int
+  | .enter n => Int.ofNat n
+  | .exit n => -(Int.ofNat n) - 1
+  | .core => 1000000
 
 end Pyr.Topo
